@@ -223,9 +223,16 @@ class MHLHistory:
         return all_paths
 
     def renamed_path_with_previous_path(self):
+        """maps the former paths of renamed files to their current paths. The renames are followed in the order of the
+        generations, a path that is recorded again (a file renamed back, another file of that name) is current again"""
         all_paths = {}
         for hash_list in self.hash_lists:
-            all_paths.update(hash_list.renamed_path_with_previous_path(self.get_root_path()))
+            renamed_paths = hash_list.renamed_path_with_previous_path(self.get_root_path())
+            for previous_path, path in all_paths.items():
+                all_paths[previous_path] = renamed_paths.get(path, path)
+            all_paths.update(renamed_paths)
+            for recorded_path in hash_list.set_of_file_paths(self.get_root_path()):
+                all_paths.pop(recorded_path, None)
         for child_history in self.child_histories:
             all_paths.update(child_history.renamed_path_with_previous_path())
         return all_paths
